@@ -1119,6 +1119,106 @@ Definition derived_count (m : omodel) : nat :=
   | [] => 0
   end.
 
+(* ---- layout rules on ANY annotation (ints, symbols, unknown): definite contradictions only.
+   A Transpose output dim i IS the input dim perm[i]; the output of a same-shape operator has the dims of its input.
+   [free] = the symbols of the graph inputs (every binding of them is admissible). *)
+Definition dim_contra (free : list string) (a b : dim) : bool :=
+  match a, b with
+  | DInt x, DInt y => negb (Z.eqb x y)
+  | DSym s, DInt _ => str_mem s free
+  | DInt _, DSym s => str_mem s free
+  | DSym s, DSym t => negb (String.eqb s t) && str_mem s free && str_mem t free
+  | _, _ => false
+  end.
+(* a flagged pair cannot be true of the same extent for every binding: some binding refutes it *)
+Theorem dim_contra_sound free a b : dim_contra free a b = true ->
+  exists rho, forall n, ~ (dim_ok rho a n /\ dim_ok rho b n).
+Proof.
+  destruct a as [x|s|], b as [y|t|]; simpl; intro H; try discriminate.
+  - exists (fun _ => 0). intros n [-> E]. apply negb_true_iff, Z.eqb_neq in H. cong.
+  - exists (fun _ => S (Z.to_nat x)). intros n [E E2]. simpl in *. tlia.
+  - exists (fun _ => S (Z.to_nat y)). intros n [E E2]. simpl in *. tlia.
+  - apply andb_prop in H. destruct H as [H _]. apply andb_prop in H. destruct H as [H _].
+    apply negb_true_iff in H. exists (fun u => if String.eqb u s then 1 else 2). intros n [E1 E2].
+    rewrite String.eqb_refl in E1. rewrite String.eqb_sym, H in E2. tlia.
+Qed.
+
+Definition lookup_dims (g : ograph) (name : string) : option (list dim) :=
+  match find (fun v => String.eqb (vi_name v) name) (og_inputs g ++ og_inits g ++ og_vinfos g ++ og_outputs g) with
+  | Some v => vi_shape v
+  | None => None
+  end.
+Definition free_syms (g : ograph) : list string :=
+  flat_map (fun v => match vi_shape v with
+                     | Some ds => flat_map (fun d => match d with DSym s => [s] | _ => [] end) ds
+                     | None => [] end) (og_inputs g).
+Fixpoint dims_contra (free : list string) (a b : list dim) : bool :=
+  match a, b with
+  | [], [] => false
+  | x :: a', y :: b' => dim_contra free x y || dims_contra free a' b'
+  | _, _ => true                                  (* different rank *)
+  end.
+(* what the layout rule says about the dims of the first output, from the DECLARED dims of the input *)
+Definition layout_rule (g : ograph) (n : onode) : option (list dim) :=
+  if negb (std_domain n) then None else
+  if str_mem (on_op n) first_input_shape_ops then
+    match on_ins n with x :: _ => lookup_dims g x | [] => None end
+  else if String.eqb (on_op n) "Transpose" then
+    match on_ins n with
+    | [x] => match lookup_dims g x with
+             | Some ds =>
+                 match attr_of n "perm" with
+                 | Some (AInts p) =>
+                     if Nat.eqb (length p) (length ds) && forallb (fun q => (0 <=? q)%Z && (q <? Z.of_nat (length ds))%Z) p
+                     then Some (map (fun q => nth (Z.to_nat q) ds DUnk) p) else None
+                 | None => Some (rev ds)
+                 | _ => None
+                 end
+             | None => None
+             end
+    | _ => None
+    end
+  else None.
+Definition layout_contra (g : ograph) (n : onode) : bool :=
+  match layout_rule g n, hd_error (on_outs n) with
+  | Some want, Some o => match lookup_dims g o with Some have => dims_contra (free_syms g) want have | None => false end
+  | _, _ => false
+  end.
+Definition layout_contradictions (m : omodel) : list (string * string) :=
+  flat_map (fun g => flat_map (fun n => if layout_contra g n then [(on_op n, hd ""%string (on_outs n))] else []) (og_nodes g))
+           (om_graphs m).
+Definition layout_rule_applies (m : omodel) : nat :=
+  length (flat_map (fun g => filter (fun n => match layout_rule g n, hd_error (on_outs n) with
+                                              | Some _, Some o => match lookup_dims g o with Some _ => true | None => false end
+                                              | _, _ => false end) (og_nodes g)) (om_graphs m)).
+
+(* if nothing is flagged on two dim lists, the ranks agree and no axis carries a definite contradiction *)
+Lemma dims_contra_false free a : forall b, dims_contra free a b = false ->
+  length a = length b /\ forall i, dim_contra free (nth i a DUnk) (nth i b DUnk) = false.
+Proof.
+  induction a as [|x a IH]; intros [|y b] H; simpl in H; try discriminate.
+  - split; [reflexivity|]. intros [|i]; reflexivity.
+  - apply orb_false_elim in H. destruct H as [H1 H2]. destruct (IH _ H2) as [Hl Hn].
+    split; [simpl; cong|]. intros [|i]; simpl; au.
+Qed.
+(* a flagged Transpose / same-shape node: rank differs, or some axis admits a binding that refutes the two annotations *)
+Theorem dims_contra_sound free a : forall b, dims_contra free a b = true ->
+  length a <> length b \/ exists i rho, forall n, ~ (dim_ok rho (nth i a DUnk) n /\ dim_ok rho (nth i b DUnk) n).
+Proof.
+  induction a as [|x a IH]; intros [|y b] H; simpl in H; try discriminate; try (left; discriminate).
+  apply orb_true_iff in H. destruct H as [H|H].
+  - right. exists 0. destruct (dim_contra_sound _ _ _ H) as [rho Hr]. exists rho. exact Hr.
+  - destruct (IH _ H) as [Hl|(i & rho & Hr)]; [left; simpl; tlia|right; exists (S i), rho; exact Hr].
+Qed.
+
+Example layout_contra_detects_inverse_perm :
+  let g := mkOG 0 None [mkVI "x" 1 (Some [DSym "S"; DInt 8; DInt 4])] []
+             [mkON "Transpose" "" "t" ["x"%string] ["y"%string] [("perm"%string, AInts [1; 2; 0]%Z)]]
+             [mkVI "y" 1 (Some [DInt 4; DSym "S"; DInt 8])] [] in
+  layout_contradictions (mkOM 10 [] [g] []) = [("Transpose", "y")]%string
+  /\ layout_rule g (mkON "Transpose" "" "t" ["x"%string] ["y"%string] [("perm"%string, AInts [1; 2; 0]%Z)]) = Some [DInt 8; DInt 4; DSym "S"].
+Proof. split; vm_compute; reflexivity. Qed.
+
 (* non-vacuity of the checker: the export of jnp.maximum(x:[4], zeros((1,1))) on the unchanged tree (output declared [4]) *)
 Definition ex_model (out_shape : list dim) : omodel :=
   mkOM 10 [(""%string, 23%Z)]
